@@ -188,7 +188,64 @@ def run(report, p):
     oksub = len(sub) == 1 and all(g.find_path(g.node_for(st), {tcall.id}, avoid={g.node_for(sub[0]).id}) is None for st in stores)
     r4.check(oksub, cf, sub[0] if sub else cf.node, "matched renames are not subtracted from the missing set before the missing-file check", construct="subtract before check")
 
+    # ------------------------------------------------------------------ R17.5
+    r5 = report.rule(
+        "R17.5",
+        "rename candidates: the collection the -dr matching loop iterates over is filled from the traversal, and whether a traversed path becomes a candidate is decided "
+        "against every generation of the history (a loop / comprehension over the full generation list), never against a single generation or a slice",
+        1,
+    )
+    cand_loops = [n for n in walk_no_nested(cf.node) if isinstance(n, ast.For) and any(_inside_node(st, n) for st in stores) and isinstance(n.iter, ast.Name)]
+    # outermost loop of the matching block
+    cand_loops = [n for n in cand_loops if not any(_inside_node(n, m) for m in cand_loops if m is not n)]
+    if len(cand_loops) != 1:
+        raise AnalysisError(f"create: rename matching loop over the candidate collection not found ({len(cand_loops)})")
+    cand = cand_loops[0].iter.id
+    adds = [c for c, tg in p.calls[cf.qual] if isinstance(c.func, ast.Attribute) and c.func.attr in ("add", "append", "update") and norm(c.func.value) == cand]
+    if not adds:
+        raise AnalysisError(f"create: no site fills the rename candidate collection `{cand}`")
+    for a in adds:
+        r5.instance(cf, a, norm(a)[:70])
+        an = g.node_for(a)
+        full_cover, partial = False, None
+        enclosing = [x for x in _anc(a) if isinstance(x, ast.For)]
+        for lp in enclosing:
+            for o in pr.origins(lp.iter, cf):
+                if o[0] == "attr" and o[2] == "hash_lists":
+                    full_cover = True
+                for t in subterms(o):
+                    if (t[0] == "elem" and t[1][0] == "attr" and t[1][2] == "hash_lists" and t[2] is not None) or (t[0] == "op" and t[1] == "slice" and t[2] and t[2][0][0] == "attr" and t[2][0][2] == "hash_lists"):
+                        partial = show(t)[:80]
+        for t, l in g.control_deps(an, through_loops=False):
+            if t.kind != "test":
+                continue
+            for nm in [x for x in ast.walk(t.ast) if isinstance(x, ast.Name) and isinstance(x.ctx, ast.Load)]:
+                for o in pr.origins(nm, cf):
+                    for st_ in subterms(o):
+                        if st_[0] == "elem" and st_[1][0] == "attr" and st_[1][2] == "hash_lists":
+                            if st_[2] is None:
+                                full_cover = True
+                            else:
+                                partial = show(st_)[:80]
+                        if st_[0] == "op" and st_[1] == "slice" and st_[2] and st_[2][0][0] == "attr" and st_[2][0][2] == "hash_lists":
+                            partial = show(st_)[:80]
+        if partial:
+            r5.check(False, cf, a, f"whether a traversed path becomes a rename candidate is decided against `{partial}` only, not against every generation: a new name that the latest generation already lists (after a plain create or -sf) is no candidate any more and its old name stays missing", construct="rename candidates judged against one generation")
+        elif not full_cover:
+            raise AnalysisError(f"{cf.loc(a)}: cannot relate the condition under which `{cand}` is filled to the generation list")
+        else:
+            r5.check(True, cf, a, "")
+
     report.not_decided += ["the pairing produced for concrete sets of simultaneous renames", "renames of folders that contain nested histories"]
+
+
+def _inside_node(n, container):
+    x = n
+    while x is not None:
+        if x is container:
+            return True
+        x = parent(x)
+    return False
 
 
 def _anc(n):
